@@ -4,12 +4,13 @@
    and return values; actualCall + withParameter / withOutputParameter / onObject in ANY order + returnValue; checkExpectations,
    strictOrder, ignoreOtherCalls; on mock() and on named scopes mock("s") -- canonical scenarios (configuration of any scope,
    expectations of any scope, interleaved calls, final mock().checkExpectations()) whose actual calls pass no parameter name twice
-   and at most one object, and whose functions are uniform in naming an object.  NOT covered by the theorems (model =
-   implementation agreement and the spec oracle only): ignoreOtherParameters, expectations without object called on an object,
+   and at most one object, and whose functions are uniform in naming an object; the verdict clause (multiset / strict sequence in
+   every scope) is proved outright (C08_Count.v).  NOT covered by the theorems (model = implementation agreement only; the spec
+   does not judge them): ignoreOtherParameters, expectations without object called on an object,
    intermediate clear/check/expectedCallsLeft, enable/disable, expectations added between calls; not modelled: custom
    comparators/copiers, tracing, nested scopes. *)
 From Coq Require Import ZArith NArith Bool List Permutation.
-From CppUVerif Require Import lib.CInt lib.Str C08_Model C08_Proofs C08_Proofs2 C08_Scopes C08_Proofs3.
+From CppUVerif Require Import lib.CInt lib.Str C08_Model C08_Proofs C08_Proofs2 C08_Scopes C08_Count C08_Proofs3.
 From CppUVerif Require C09_Model.
 Import ListNotations.
 
@@ -46,20 +47,38 @@ Theorem C08_verdict_every_scope : forall ops k,
 Proof. exact verdict_every_scope. Qed.
 Print Assumptions C08_verdict_every_scope.
 
-(* specw s (runw s) = true (the functions the check runs); _partial: the first clause of the spec (passes iff in every scope the
-   multisets / sequences agree) is assumed to be M's verdict for each scope (verdict_agrees: the M-level counting theorem is not
-   proved in general); the first-deviation, returned-value and output-bytes clauses are proved outright. *)
-Theorem C08_runw_meets_specw_partial : forall ops,
-  (forall k s, parsew ops = Some k -> judgedw k = true -> In s (0%N :: scopes_of k) -> verdict_agrees (scope_canon k s)) ->
-  specw ops (runw ops) = true.
-Proof. exact runw_meets_specw_partial. Qed.
-Print Assumptions C08_runw_meets_specw_partial.
+(* the counting theorem on M: for a judged scenario of one scope the reference semantics passes iff the multiset of checked calls
+   equals the multiset of expectations expanded by their counts (keyed by call shape: function, object, parameter names and
+   values, output names), independent of call order; with strict ordering iff the calls follow the expanded expectation sequence *)
+Theorem C08_verdict_counting : forall k, judged k = true ->
+  verdict_ok k = match fst (expected k) with None => true | Some _ => false end.
+Proof. exact verdict_counting. Qed.
+Print Assumptions C08_verdict_counting.
+
+(* the verdict clause, one mock: a judged scenario passes iff the multisets (strict: the sequences) agree *)
+Theorem C08_verdict_multiset : forall ops k,
+  parse ops = Some k -> judged k = true -> (o_fail (run ops) = None <-> verdict_ok k = true).
+Proof. exact verdict_exact. Qed.
+Print Assumptions C08_verdict_multiset.
+
+(* the verdict clause over the scopes: a judged scenario passes iff in EVERY scope the actual calls match that scope's expectations
+   one-to-one (multisets, strict: sequences) *)
+Theorem C08_verdict_multiset_scopes : forall ops k,
+  parsew ops = Some k -> judgedw k = true ->
+  (o_fail (runw ops) = None <-> forall s, In s (0%N :: scopes_of k) -> verdict_ok (scope_canon k s) = true).
+Proof. exact verdict_exact_scopes. Qed.
+Print Assumptions C08_verdict_multiset_scopes.
+
+(* specw s (runw s) = true for EVERY scenario (runw / specw are the functions the check runs): verdict, first deviation with the
+   matching diagnosis, returned values and output bytes of the consumed expectation *)
+Theorem C08_runw_meets_specw : forall ops, specw ops (runw ops) = true.
+Proof. exact runw_meets_specw. Qed.
+Print Assumptions C08_runw_meets_specw.
 
 (* the same for one mock *)
-Theorem C08_run_meets_spec_partial : forall ops,
-  (forall k, parse ops = Some k -> judged k = true -> verdict_agrees k) -> spec ops (run ops) = true.
-Proof. exact run_meets_spec_partial. Qed.
-Print Assumptions C08_run_meets_spec_partial.
+Theorem C08_run_meets_spec : forall ops, spec ops (run ops) = true.
+Proof. exact run_meets_spec. Qed.
+Print Assumptions C08_run_meets_spec.
 
 (* operations on mock() only, with no scope ever created, are the one-mock model *)
 Theorem C08_runw_global : forall ops, runw (map (pair 0%N) ops) = run ops.
